@@ -20,9 +20,9 @@ pub fn spec() -> Spec {
     Spec {
         prop: "C12",
         level: "exploration",
-        rule: "Real server via start() on loopback, raw HTTP so the Authorization header is arbitrary. Enumerated completely: every registered method (real method table) x {call, notification, batch element first/middle/last mixed with public calls, batch of only notifications; for indexer-only methods also: string id, batch of one, last of a 31-element batch, two indexer-only calls in one batch, notification between public calls, an element that is not a JSON-RPC request in front of the call, a batch of exactly the batch limit and of one less with the call at a varying position} x {no header, wrong user, wrong password, right user + empty password, lower-case scheme, bad base64, two wrong headers, doubled space, suffix-extended credentials, correct} x {auth on, off}. Deny-listed + not authorised => JSON-RPC error 401 for that element and no effect (state digest through authorised reads, incl. an executing read that would stall on an open block, equal before/after); everything else served (no 401). Completeness: each method is also invoked authorised with well-formed parameters on a scratch server and classified by effect (Obs, open block, pool); every method classified mutating must have been refused in the unauthorised sweep; afterwards a fixed authorised script must answer exactly as on a twin server that never saw the sweep. Non-trivial = matrix cell whose expectation is 'refused' or 'state must be unchanged'.",
+        rule: "Real server via start() on loopback, raw HTTP so the Authorization header is arbitrary. Enumerated completely: every registered method (real method table) x {call, notification, batch element first/middle/last mixed with public calls, batch of only notifications; for indexer-only methods also: string id, batch of one, last of a 31-element batch, two indexer-only calls in one batch, notification between public calls, an element that is not a JSON-RPC request in front of the call, a batch of exactly the batch limit and of one less with the call at a varying position} x {no header, wrong user, wrong password, right user + empty password, lower-case scheme, bad base64, two wrong headers, doubled space, suffix-extended credentials, correct} x {auth on, off}. Deny-listed + not authorised => JSON-RPC error 401 for that element and no effect (state digest through authorised reads, incl. an executing read that would stall on an open block, equal before/after); everything else served (no 401). Completeness: each method is also invoked authorised with well-formed parameters on a scratch server and classified by effect (Obs, open block, pool); every method classified mutating must have been refused in the unauthorised sweep; afterwards a fixed authorised script must answer exactly as on a twin server that never saw the sweep. Thorough adds 16 shards of 1 500 random batch compositions each (2..50 elements, 1-3 indexer-only calls at random positions among public calls, notifications and non-requests). Non-trivial = matrix cell whose expectation is 'refused' or 'state must be unchanged'.",
         assumptions: vec!["a request carrying two Authorization headers of which one is correct is not judged (HTTP leaves the choice to the server)".into()],
-        exhaustive: true,
+        exhaustive: false,
         min_nontrivial: 2,
     }
 }
@@ -556,6 +556,8 @@ pub fn worker(ctx: &WorkerCtx) -> WorkerReport {
         sweep(ctx, &mut rep, false, &names, &deny, &variants[k..k + 1], &btc);
     } else if s == 2 * nv {
         classify(ctx, &mut rep, &names, &deny, &btc);
+    } else if s > 2 * nv + 1 {
+        random_batches(ctx, &mut rep, &names, &deny, &variants, &btc);
     } else {
         twin_after_sweep(ctx, &mut rep, &names, &deny, &btc);
         // start() must fail when auth is enabled without credentials
@@ -582,6 +584,113 @@ pub fn worker(ctx: &WorkerCtx) -> WorkerReport {
     rep
 }
 
-pub fn shards() -> u64 {
-    header_variants().len() as u64 * 2 + 2
+pub fn shards(thorough: bool) -> u64 {
+    header_variants().len() as u64 * 2 + 2 + if thorough { 16 } else { 0 }
+}
+
+/// Thorough tier: random batch compositions beyond the matrix - 2..50 elements, one to three
+/// indexer-only calls at random positions among public calls, notifications and elements that are
+/// not requests at all, under a random unauthorised header. Every indexer-only call must be answered
+/// 401, every public call served, and the state digest must not move.
+fn random_batches(ctx: &WorkerCtx, rep: &mut WorkerReport, methods: &[String], deny: &BTreeSet<String>, variants: &[(&'static str, Vec<String>, bool)], btc: &str) {
+    let mut rng = ctx.rng();
+    let dir = rpc::fresh_dir("C12");
+    let srv = match start(true, &dir, btc, 50) {
+        Ok(s) => s,
+        Err(e) => {
+            rep.inconclusive(format!("server did not start: {}", e));
+            return;
+        }
+    };
+    let Some(mut st) = setup(&srv.addr, &dir) else {
+        rep.inconclusive("authorised setup failed");
+        stop(srv);
+        return;
+    };
+    let t = Duration::from_secs(60);
+    let dg = digest(&srv.addr, &dir);
+    let unauth: Vec<&(&'static str, Vec<String>, bool)> = variants.iter().filter(|v| !v.2).collect();
+    let denied: Vec<&String> = methods.iter().filter(|m| deny.contains(*m)).collect();
+    for round in 0..1500u64 {
+        let (vname, headers, _) = *rng.pick(&unauth);
+        let total = rng.range(2, 50) as usize;
+        let ntargets = rng.range(1, 3) as usize;
+        let mut elems: Vec<Value> = Vec::new();
+        let mut target_ids: Vec<i64> = Vec::new();
+        let mut public_ids: Vec<i64> = Vec::new();
+        for k in 0..total {
+            let id = 1000 + k as i64;
+            let e = match rng.below(12) {
+                0 => json!(rng.below(5)),
+                1 => json!({}),
+                2 => json!({"jsonrpc": "2.0", "method": "eth_blockNumber", "params": []}),
+                _ => {
+                    public_ids.push(id);
+                    json!({"jsonrpc": "2.0", "id": id, "method": if k % 2 == 0 { "eth_chainId" } else { "eth_blockNumber" }, "params": []})
+                }
+            };
+            elems.push(e);
+        }
+        for j in 0..ntargets {
+            let m = (*rng.pick(&denied)).clone();
+            st.n += 1;
+            st.fresh_hash = crate::hist::bh(0xf00e_0000 + st.n);
+            let Some(params) = template(&m, &st) else { continue };
+            let id = 7000 + j as i64;
+            let at = rng.below(elems.len() as u64 + 1) as usize;
+            let notification = rng.chance(1, 6);
+            if notification {
+                elems.insert(at, json!({"jsonrpc": "2.0", "method": m, "params": params}));
+            } else {
+                elems.insert(at, json!({"jsonrpc": "2.0", "id": id, "method": m, "params": params}));
+                target_ids.push(id);
+            }
+        }
+        elems.truncate(50);
+        let body = Value::Array(elems);
+        let resp = match http::post(&srv.addr, headers, &body.to_string(), t) {
+            Ok(r) => r,
+            Err(e) => {
+                rep.inconclusive(format!("http error on a random batch: {}", e));
+                continue;
+            }
+        };
+        rep.evaluations += 1;
+        let v: Value = serde_json::from_str(&resp.body).unwrap_or(Value::Null);
+        for id in &target_ids {
+            // (a call pushed beyond position 50 by the insertions was cut off together with the tail)
+            if !body.as_array().map(|a| a.iter().any(|e| e.get("id").and_then(|i| i.as_i64()) == Some(*id))).unwrap_or(false) {
+                continue;
+            }
+            let code = element_by_id(&v, *id).and_then(|e| e.get("error")).and_then(|e| e.get("code")).and_then(|c| c.as_i64());
+            if code != Some(401) {
+                violation(rep, "C12", ctx.seed, &format!("not-refused:random-batch:{}", vname), format!("hdr={}: an indexer-only call inside a random batch of {} elements was not answered with 401: {}", vname, body.as_array().map(|a| a.len()).unwrap_or(0), &resp.body[..resp.body.len().min(300)]), json!({"request": body, "response": v}));
+                stop(srv);
+                rpc::remove_dir(&dir);
+                return;
+            }
+        }
+        for id in &public_ids {
+            if let Some(e) = element_by_id(&v, *id) {
+                if e.get("result").is_none() {
+                    violation(rep, "C12", ctx.seed, "public-element-not-served-in-mixed-batch", format!("hdr={}: a permitted call of a random batch was not served", vname), json!({"request": body, "response": v}));
+                    stop(srv);
+                    rpc::remove_dir(&dir);
+                    return;
+                }
+            }
+        }
+        if round % 5 == 4 || !target_ids.is_empty() && round % 2 == 0 {
+            if digest(&srv.addr, &dir) != dg {
+                violation(rep, "C12", ctx.seed, "unauthorised-request-changed-state:random-batch", format!("hdr={}: state changed after an unauthorised random batch", vname), json!({"request": body}));
+                stop(srv);
+                rpc::remove_dir(&dir);
+                return;
+            }
+        }
+        rep.nontrivial(format!("random-batch:{}:{}-elements:{}-denied", vname, total / 10 * 10, target_ids.len()));
+    }
+    rep.count("random_batches", 1500);
+    stop(srv);
+    rpc::remove_dir(&dir);
 }
